@@ -90,6 +90,20 @@ def gen_case(rng, tier, i):
     # Graph / Dataset object with the same graph names (ds3)
     case = {"ds": ds, "q": q, "ds2": G.mutate_dataset(rng, ds), "ds3": G.mutate_dataset(rng, ds)}
     case.update(_gen_surface(rng, tier, ds, q))
+    # GRAPH streams on a ConjunctiveGraph: its default context is named by a blank node, holds triples of its own, and is
+    # listed by contexts() — GRAPH ?g must not range over it.  A ConjunctiveGraph's default graph is the union and it has no
+    # graphs without triples, so the data is adjusted to what it can hold (every named graph and the default context
+    # non-empty, in all three datasets of the case).
+    if ds["named"] and "(graph " in G.sx_query(q) and rng.random() < (0.5 if "(graph ?" in G.sx_query(q) else 0.2):
+        for k in ("ds", "ds2", "ds3"):
+            d = case[k]
+            d["union"] = True
+            for j, (name, ts) in enumerate(d["named"]):
+                if not ts:
+                    d["named"][j] = [name, [[["i", j % 3], ["i", 10 + j % 2], ["i", (j + 1) % 3]]]]
+            if not d["default"]:
+                d["default"] = [[["i", 0], ["i", 10], ["i", 1]]]
+        case["operand"] = "conjunctive"
     return case
 
 
@@ -117,7 +131,7 @@ def _gen_surface(rng, tier, ds, q):
                 kinds.append("conjunctive")       # ConjunctiveGraph: default graph = union; it has no empty graphs
             kinds.append("dataset-extra-call")    # the Dataset is also queried by an unrelated query first
         else:
-            kinds = ["graph-simplememory", "graph-in-dataset", "aggregate", "graph-identified"]
+            kinds = ["graph-simplememory", "graph-in-dataset", "aggregate", "graph-identified", "graph-in-conjunctive"]
         out["operand"] = rng.choice(kinds)
     return out
 
@@ -169,6 +183,14 @@ def _build_operand(kind, ds, q):
                 for t in {G.T(t) for t in nts} - {G.T(t) for t in ots}:
                     ctx_.add(T3(t))
         return cg, mut
+    if kind == "graph-in-conjunctive":
+        cg = ConjunctiveGraph()                      # a context of a ConjunctiveGraph that holds other contexts too
+        cg.default_context.add((URIRef(NS + "0"), URIRef(NS + "10"), URIRef(NS + "0")))
+        cg.get_context(URIRef(NS + "20")).add((URIRef(NS + "1"), URIRef(NS + "11"), URIRef(NS + "2")))
+        g = cg.get_context(URIRef("http://e/779"))
+        for t in ds["default"]:
+            g.add(T3(t))
+        return g, lambda old, new: _mutate_in_place(g, old, new)
     if kind in ("graph-simplememory", "graph-identified", "graph-in-dataset"):
         if kind == "graph-simplememory":
             g = Graph(store=SimpleMemory())
